@@ -7,6 +7,7 @@ monitor clauses P11_* of spec/Pipeline.tla."""
 import errno
 
 from checks import chan_common as cc
+from checks import chan_random
 from checks import chan_model
 
 LEVEL = "model_checking"
@@ -19,6 +20,8 @@ def scenarios(thorough):
     closers = [("close", {"k": 1, "kind": "close"}, {}), ("http10", {"k": 1, "kind": "http10"}, {}),
                ("bad", {"k": 1, "kind": "bad"}, {}), ("undelimitable", P(1), {1: {"cl": "larger"}}),
                ("http10 keep-alive with Transfer-Encoding", {"k": 1, "kind": "te10"}, {}),
+               ("Transfer-Encoding and Content-Length", {"k": 1, "kind": "te_cl"}, {}),
+               ("Transfer-Encoding and an empty Content-Length", {"k": 1, "kind": "te_cl_empty"}, {}),
                ("app-raises", P(1), {1: {"raise_at": 1, "chunks": [3, 3], "cl": "none"}})]
     followers = [("complete", [P(2)]), ("partial", [{"k": 2, "kind": "partial"}]), ("garbage", [{"k": 2, "kind": "garbage"}])]
     las = (0, 1, 2, 5) if thorough else (0, 1, 2)
@@ -77,6 +80,7 @@ def run(chk, replay=None):
     chan_model.model_check(chk, "C11", scns)
     n_pct, dfs = (800, 3000) if chk.thorough else (60, 300)
     cc.explore_and_validate(chk, "C11", scns, n_pct, dfs, bound=2, label="close-race")
+    chan_random.explore(chk, "C11")
     chk.rule = ("cases = schedules of the real server over %d close-race scenarios (closing message x follower x same/later read x lookahead); "
                 "evaluations = distinct traces judged by TLC; non-trivial = >= 2 requests executed or a close decision/teardown observed" % len(scns))
     chk.assumptions += ["a close decision is observed as the first write of will_close / close_when_flushed and, independently, as a closing response on the wire", "simulated kernel"]
